@@ -525,6 +525,26 @@ func init() {
 				}
 			}
 		}
+		for _, sib := range ws.Layers { // a parent whose name is the beginning of a sibling's: its busy child protects it all the same
+			i := strings.LastIndexByte(sib.Name, '-')
+			if i <= 0 || !r.Chance(2, 3) {
+				continue
+			}
+			p := sib.Name[:i]
+			for _, c := range ws.Layers {
+				if c.Base == p {
+					var last lcw.StepIn
+					if r.Bool() {
+						last = step("rename", p, "newname", false)
+					} else {
+						last = step("rebase", p, r.Pick(append(lcw.LayerNames(ws), "")), false)
+					}
+					last.Users = map[string][]lcw.User{c.Name: {{File: r.Pick([]string{"build/usr", "", "packages", "overlayfs/upperdir"})}}}
+					in.Steps = append(in.Steps, last)
+					return []lcw.Input{in}
+				}
+			}
+		}
 		in.Steps = append(in.Steps, priorMounts(r, ws, in.Cfg, r.Chance(1, 4))...)
 		t := pickLayer(r, ws).Name
 		var last lcw.StepIn
@@ -714,6 +734,14 @@ func init() {
 			case "add":
 				cmd = step("add", "newlayer", r.Pick(append(lcw.LayerNames(ws), "")), false)
 			case "rename":
+				if r.Chance(2, 3) { // preferably a layer with children: their layerconfigs are rewritten too
+					for _, c := range ws.Layers {
+						if c.Base != "" {
+							t = c.Base
+							break
+						}
+					}
+				}
 				cmd = step("rename", t, "renamed", false)
 			case "rebase":
 				cmd = step("rebase", t, r.Pick(append(lcw.LayerNames(ws), "")), false)
